@@ -364,6 +364,9 @@ def compare_firing(lhs_ast, rhs_ast, nonneg):
             if np.isnan(np.asarray(a, dtype=float)).any():
                 raise OutOfDomain("nan")
             if not close(a, b):
+                a_, b_ = np.asarray(a, dtype=float), np.asarray(b, dtype=float)
+                if a_.shape == b_.shape and np.all(np.isclose(a_, b_, rtol=1e-6, atol=1e-9, equal_nan=True) | ((a_ == -np.inf) & np.isfinite(b_) & (b_ < -700.0)) | ((b_ == -np.inf) & np.isfinite(a_) & (a_ < -700.0))):
+                    continue  # exp underflow inside the floating-point reference evaluator (log(exp(v)) for v < -745)
                 return ("changes-value", f"at {pt}: original {np.asarray(a).tolist()} replacement {np.asarray(b).tolist()}")
             n += 1
     return n
